@@ -12,6 +12,12 @@ const SMALL_LIMIT: usize = 50_000;
 pub fn check_term(s: &mut Sess, rep: &mut Report, t: RegLan, k: usize, small_profile: bool) {
     let cap = if small_profile { SMALL_LIMIT } else if s.thorough { 6000 } else { 2000 };
     // pull the iterator item by item: a non-terminating enumeration cannot hang the monitor
+    // a partially consumed and dropped enumeration first (every other term), then the real one
+    if s.rng.chance(1, 2) {
+        let take = 1 + s.rng.usize(5);
+        let _ = guard(|| s.m.iter_derivatives(t).take(take).count());
+        rep.inc("partial_enumerations_dropped");
+    }
     // the iterator hands out references tied to the manager borrow: record (pointer, id) and map back to
     // the manager's own 'static references afterwards
     let mut raw: Vec<(*const aws_smt_strings::regular_expressions::RE, usize)> = Vec::new();
